@@ -199,6 +199,32 @@ def gen_collide_method(rng, name):
     return m
 
 
+# parameter names a template author might pick for locals of the generated method body
+SHADOW_NAMES = ["impl", "fn", "f", "ok", "ret", "result", "res", "call", "calls", "info", "lock", "args", "v", "m"]
+
+
+def gen_shadow_method(rng, name):
+    """Parameters NAMED like plausible template locals and typed any / interface{} / a func type, so that a local of the
+    generated body shadowing the parameter would still compile - and <M>Func would receive the local instead of the argument."""
+    np = rng.randint(1, 4)
+    names = rng.sample(SHADOW_NAMES, np)
+    params = []
+    for nm in names:
+        ty = rng.choice(["any", "interface{}", "any", "interface{}", "func() int", "func(int) string"])
+        params.append({"name": nm, "type": ty, "max": TYPE[ty][2], "variadic": False})
+    if rng.random() < 0.25:
+        params[-1].update(type=rng.choice(["any", "interface{}"]), variadic=True)
+    results = []
+    for i in range(rng.choice([0, 0, 1, 1, 2])):
+        t = rng.choice([TYPE["any"], TYPE["error"], TYPE["int"], TYPE["interface{}"]])
+        results.append({"name": None, "type": t[0], "max": t[2]})
+    m = {"name": name, "params": params, "results": results, "variadic": params[-1]["variadic"], "shadow": True}
+    m["resolved"] = resolved_names(m)
+    if len({exported(x) for x in m["resolved"]}) != len(m["resolved"]) or m["resolved"] != names:
+        return gen_shadow_method(rng, name)
+    return m
+
+
 def gen_ref_method(rng, name):
     """io.Reader-shaped methods and relatives: slice (also named slice types, variadics of slices), map and pointer
     parameters - the user function must get the caller's very slice / map / pointer, not an equal copy."""
@@ -240,6 +266,8 @@ def gen_iface(rng, name, generic):
         ms.append(gen_long_method(rng, rng.choice(["Transfer", "Dispatch", "Replicate"])))
     if rng.random() < 0.45:
         ms.append(gen_ref_method(rng, rng.choice(["Read", "Write", "Fill"])))
+    if rng.random() < 0.45:
+        ms.append(gen_shadow_method(rng, rng.choice(["Handle", "Invoke", "Visit"])))
     if rng.random() < 0.35:
         # "Calls" is also a member-like method name: the mock then has CallsFunc, Calls(), CallsCalls()
         ms.append(gen_collide_method(rng, rng.choice(["Register", "Audit", "Calls"])))
@@ -991,7 +1019,7 @@ def check(ctx, only=None):
         return any(x["k"] == "records" and len(x["l"]) >= 2 for x in o)
     distinct = len({json.dumps([mock_term(c["pkg"], c["iface"]), c["hist"]], sort_keys=True) for c, o in zip(cases, outs) if nontrivial(o)})
     hist = {"ops": {}, "outcomes": {}, "params_per_method": {}, "results_per_method": {}, "param_style": {}, "options": {},
-            "types": {}, "reference_argument_methods": {}, "template_identifier_collision_methods": {}, "long_name_methods": {}, "long_name_call_list_bytes": {}, "option_level": {}, "nested_ops_in_installed_funcs": {}, "nested_outcomes": {}, "variadic_methods": 0, "generic_interfaces": 0, "methods": 0, "interfaces": 0}
+            "types": {}, "template_local_like_parameter_names": {}, "reference_argument_methods": {}, "template_identifier_collision_methods": {}, "long_name_methods": {}, "long_name_call_list_bytes": {}, "option_level": {}, "nested_ops_in_installed_funcs": {}, "nested_outcomes": {}, "variadic_methods": 0, "generic_interfaces": 0, "methods": 0, "interfaces": 0}
     hist["mocks_per_mixed_file"], hist["mixed_via"], hist["mixed_option_values"] = {}, {}, {}
     for pkg in pkgs:
         for v, _ in views(pkg):
@@ -1021,6 +1049,9 @@ def check(ctx, only=None):
                         key = ("unnamed " if prm["name"] is None else "_ " if prm["name"] == "_" else "named %s " % prm["name"] if prm["name"] in ("calls", "callsParam", "mockParam", "callInfoParam") or prm["name"].startswith("lock") else "") + \
                               ("..." if prm["variadic"] else "") + prm["type"]
                         hist["template_identifier_collision_methods"][key] = hist["template_identifier_collision_methods"].get(key, 0) + 1
+                if m.get("shadow"):
+                    for prm in m["params"]:
+                        hist["template_local_like_parameter_names"][prm["name"]] = hist["template_local_like_parameter_names"].get(prm["name"], 0) + 1
                 if m.get("ref"):
                     key = "(" + ", ".join(("..." if prm["variadic"] else "") + prm["type"] for prm in m["params"]) + ")"
                     hist["reference_argument_methods"][key] = hist["reference_argument_methods"].get(key, 0) + 1
